@@ -547,12 +547,13 @@ def run(chk):
             for o in e["out"]:
                 kinds["out." + o["k"]] = kinds.get("out." + o["k"], 0) + 1
     chk.cov["clause_counts"] = kinds
-    for v in ("sync.idle_call_while_bytes_carried.poll.before_expiry", "sync.idle_call_while_bytes_carried.short.before_expiry",
-              "sync.remainder_read_while_bytes_carried", "sync.raw_keys_call"):
+    # Since repo fix e5e9864 (get_input waits complete_wait for the rest of an unfinished sequence inside the call) a call never returns
+    # with bytes carried, so the "idle call while bytes are carried" situations are counted but no longer required; what is required
+    # instead is calls that took more than one read (the remainder was read inside the call).
+    kinds["sync.call_with_several_reads"] = sum(1 for t in straces for e in t["ev"] if len(e.get("reads", [])) > 1)
+    for v in ("sync.call_with_several_reads", "sync.raw_keys_call"):
         if not kinds.get(v):
             chk.vacuity.append("driver." + v)
-    if not any(v for k, v in kinds.items() if k.startswith("sync.idle_call_while_bytes_carried.") and k.endswith(".expired")):
-        chk.vacuity.append("driver.sync.idle_call_after_complete_wait_expired")
     chk.cov["distinct_nontrivial"] = len(nontriv)
     chk.cov["rule"] = ("streams: every documented table sequence / mouse report / CPR / character alone with every cut, concatenations of them, "
                        "garbage and truncations, random bytes; three encoding modes; non-trivial = distinct (mode, stream, cuts, timeouts) with at least one cut")
